@@ -214,7 +214,7 @@ class World(WorldBase):
             "p_default": rng.choice([0.0, 0.3, 0.7]),
             "p_outfile": rng.choice([0.2, 0.5, 0.8]),
             "maxN": rng.choice([8, 12, 12, 18, 18, 36]),
-            "maxT": rng.choice([2, 3, 4]),
+            "maxT": rng.choice([2, 3, 4, 4, 8]),          # now and then trajectories long enough for windows of several frames
             "p_centred": rng.choice([0.1, 0.4, 0.8]),
             "p_reuse": rng.choice([0.3, 0.6, 0.9]),
             "clients": rng.randint(1, 3),
@@ -664,7 +664,12 @@ class World(WorldBase):
         elif v.dtype == bool:
             v[...] = np.roll(v, 1, axis=-1)
         elif role in ("sigmas", "epsilons", "rcuts"):
-            v *= (1.0 + 0.03125 * (how + 1))                # stays symmetric
+            if how == 2 and v.ndim == 2 and v.shape[0] >= 2:
+                # one pair type only - the smallest entry, so that the largest stays what it was
+                i, j = np.unravel_index(int(np.argmin(v)), v.shape)
+                v[i, j] = v[j, i] = v[i, j] * 0.875       # stays symmetric
+            else:
+                v *= (1.0 + 0.03125 * (how + 1))                # stays symmetric
         elif role == "condition" and v.ndim >= 2:
             t = int(rng.integers(0, v.shape[0]))
             if how == 0:
